@@ -239,7 +239,9 @@ func BFS(r *vk.Run, props []string, cfg Config) {
 	for k := range seen {
 		ks = append(ks, k)
 	}
-	sort.Slice(ks, func(i, j int) bool { return len(seen[ks[i]]) > len(seen[ks[j]]) || (len(seen[ks[i]]) == len(seen[ks[j]]) && ks[i] < ks[j]) })
+	sort.Slice(ks, func(i, j int) bool {
+		return len(seen[ks[i]]) > len(seen[ks[j]]) || (len(seen[ks[i]]) == len(seen[ks[j]]) && ks[i] < ks[j])
+	})
 	for i := 0; i < len(ks) && i < 2; i++ {
 		sample = append(sample, names(&cfg, seen[ks[i]]))
 	}
